@@ -88,6 +88,8 @@ pub fn exec(op: &str, a: &[&str]) -> Option<String> {
             m.write(&mut v).unwrap();
             let mut c = Cursor::new(&v);
             let rb = match FilterLoad::read(&mut c) { Ok(m2) => m2 == m && c.position() as usize == v.len(), Err(_) => false };
+            // the same value through writers that accept only part of what they are offered must put the same bytes on the wire
+            let rb = rb && [1usize, 3, 256].iter().all(|k| { let mut w = crate::util::FragWriter { buf: Vec::new(), k: *k, calls: 0 }; m.write(&mut w).is_ok() && w.buf == v });
             Some(format!("ok:{}:{}:{}", repr_b(&v), bit(v.len() == m.size()), bit(rb)))
         }
         // c20.fl_read <payload hex>: decode, validate, use
